@@ -21,11 +21,14 @@ func c18key() (crypto.PrivKey, peer.ID) {
 // the fields they were built from.
 func VerifC18_MakeRead() {
 	priv, id := c18key()
+	// one to three addresses in the provider's order of preference (not byte order; the third repeats the first)
+	addrs := []string{"/ip4/9.9.9.9/tcp/5", "/ip4/1.2.3.4/tcp/5", "/ip4/9.9.9.9/tcp/5"}[:verif_Choose("addresses", 1, 3)]
 	if verif_Choose("requestKind", 0, 1) == 0 {
 		mh := verif_Bytes("multihash", 2)
-		ctx := verif_Bytes("contextID", verif_Choose("ctxLen", 0, 2))
+		// (64: the longest context ID an advertisement may carry)
+		ctx := verif_Bytes("contextID", []int{0, 1, 2, 64}[verif_Choose("ctxLen", 0, 3)])
 		md := verif_Bytes("metadata", verif_Choose("mdLen", 0, 2))
-		data, err := MakeIngestRequest(id, priv, mh, ctx, md, []string{"/ip4/1.2.3.4/tcp/5"})
+		data, err := MakeIngestRequest(id, priv, mh, ctx, md, addrs)
 		verif_Assert(err == nil, "constructing an ingest request succeeds")
 		req, rerr := ReadIngestRequest(data)
 		verif_Reach("ingest read")
@@ -33,9 +36,14 @@ func VerifC18_MakeRead() {
 		if rerr != nil || req == nil {
 			return
 		}
-		verif_Assert(req.ProviderID == id && bytes.Equal(req.Multihash, mh) && bytes.Equal(req.ContextID, ctx) && bytes.Equal(req.Metadata, md) && len(req.Addrs) == 1 && req.Addrs[0] == "/ip4/1.2.3.4/tcp/5", "ingest request returns the fields it was built from")
+		verif_Assert(req.ProviderID == id && bytes.Equal(req.Multihash, mh) && bytes.Equal(req.ContextID, ctx) && bytes.Equal(req.Metadata, md) && len(req.Addrs) == len(addrs), "ingest request returns the fields it was built from")
+		for i := range addrs {
+			if i < len(req.Addrs) {
+				verif_Assert(req.Addrs[i] == addrs[i], "ingest request returns its addresses in the order given")
+			}
+		}
 	} else {
-		data, err := MakeRegisterRequest(id, priv, []string{"/ip4/1.2.3.4/tcp/5"})
+		data, err := MakeRegisterRequest(id, priv, addrs)
 		verif_Assert(err == nil, "constructing a register request succeeds")
 		rec, rerr := ReadRegisterRequest(data)
 		verif_Reach("register read")
@@ -43,7 +51,12 @@ func VerifC18_MakeRead() {
 		if rerr != nil || rec == nil {
 			return
 		}
-		verif_Assert(rec.PeerID == id && len(rec.Addrs) == 1 && rec.Addrs[0].String() == "/ip4/1.2.3.4/tcp/5", "register request returns the fields it was built from")
+		verif_Assert(rec.PeerID == id && len(rec.Addrs) == len(addrs), "register request returns the fields it was built from")
+		for i := range addrs {
+			if i < len(rec.Addrs) {
+				verif_Assert(rec.Addrs[i].String() == addrs[i], "register request returns its addresses in the order given")
+			}
+		}
 	}
 }
 
